@@ -754,7 +754,18 @@ def rule_stateapi(ctx, R):
         # the index of the appended command: length after the push minus one, or the length read before the push
         "push_code": [["COLLECT(P1.code,P2)", "Vec::len(P1.code)", "RET((Vec::len(P1.code) Sub K1))"], ["Vec::len(P1.code)", "COLLECT(P1.code,P2)", "RET(Vec::len(P1.code))"]],
         "get_code": [["Index::index(P1.code,P2)", "RET(Index::index(P1.code,P2))"]],
+        "stack_size": [["Vec::len(P1.stack)", "RET(Vec::len(P1.stack))"], ["HashMap::len(P1.stack)", "RET(HashMap::len(P1.stack))"]],
+        "get_all_code": [["Clone::clone(P1.code)", "RET(Clone::clone(P1.code))"]],
     }
+    # all stacks of the vector-backed state: indices 0 .. len
+    nm_ = "<core::state::OptState as hyeong::core::state::State>::get_all_stack_index"
+    if nm_ in fb.bodies:
+        b_, d_ = p_c06.fn_lang(fb, nm_, epsilon=set(), set_events=True)
+        try:
+            ws_ = d_.enumerate_all(limit=20)
+        except RuntimeError:
+            ws_ = []
+        R.check(len(ws_) == 1 and ws_[0][-1] == "RET(Iterator::collect(Range::Range{K0,Vec::len(P1.stack)}))", "stateapi:OptState:get_all_stack_index", "the stack indices of the vector-backed state are 0 .. number of stacks (all of them): %s" % [w[-1] for w in ws_], b_.span)
     n = 0
     for impl in ("UnOptState", "OptState"):
         for meth, accepted in A.items():
